@@ -10,6 +10,7 @@ import OsacaVerif.Driver.C13
 import OsacaVerif.Driver.C16
 import OsacaVerif.Driver.C19
 import OsacaVerif.Driver.C09
+import OsacaVerif.Driver.C10
 open OsacaVerif OsacaVerif.Proto
 
 /-- one handler per property module; the first that recognises the op answers -/
@@ -24,7 +25,8 @@ def handlers : List (Req → Option String) := [
   Driver.C13.handle,
   Driver.C16.handle,
   Driver.C19.handle,
-  Driver.C09.handle
+  Driver.C09.handle,
+  Driver.C10.handle
 ]
 
 def dispatch (r : Req) : String :=
